@@ -18,7 +18,7 @@ ID = "C08"
 LEVEL = "model_checking"
 RULE = (
     "handlers: for i in 0..624, metric m gets the 4-tuple number (i + 157*rank(m)) mod 625 over {INF,NAN,ZERO,ONE,NONE}^4 (every metric sees all 625 tuples, metrics of one handler differ) x 5 "
-    "empty_list_std values; inputs: scenarios {no instances, empty prediction, empty reference, disjoint, overlapping below the threshold / different labels, all instances failing a decision threshold} x "
+    "empty_list_std values; inputs: scenarios {no instances, empty prediction, empty reference, disjoint (equal and unequal instance counts 3 vs 1, 1 vs 2), overlapping below the threshold / different labels, all instances failing a decision threshold} x "
     "{1-D, 2-D, 3-D} x input type {SEMANTIC, UNMATCHED, MATCHED}; last clause: 10 inputs with tp > 0 (thorough: every tp>0 table of CT(2,2,1) x 3 input types) under all 3125 handlers vs the default handler. "
     "non-trivial = the scenario's configured values differ between at least two scenarios of that handler; distinct by (handler, input)"
 )
@@ -67,6 +67,12 @@ def realisations(itype):
         ("empty_pred", "EMPTY_PRED", [0] * 7, [1, 1, 0, lab2, 0, 0, 0], 0, 2, thr, None),
         ("empty_ref", "EMPTY_REF", [1, 0, lab2, lab2, 0, 0, 0], [0] * 7, 2, 0, thr, None),
     ]
+    # unequal instance counts without any match (fp and fn must not be exchanged)
+    if itype == "MATCHED":
+        out += [("disjoint_3v1", "NORMAL", [1, 0, 2, 0, 3, 0, 0], [0, 0, 0, 0, 0, 4, 4], 3, 1, None, None), ("disjoint_1v2", "NORMAL", [1, 1, 0, 0, 0, 0, 0], [0, 0, 2, 0, 3, 3, 0], 1, 2, None, None)]
+    else:
+        lab3 = 1 if itype == "SEMANTIC" else 3
+        out += [("disjoint_3v1", "NORMAL", [1, 0, lab2, 0, lab3, 0, 0], [0, 0, 0, 0, 0, 0, 1], 3, 1, thr, None), ("disjoint_1v2", "NORMAL", [1, 1, 0, 0, 0, 0, 0], [0, 0, 0, lab2, 0, lab3, lab3], 1, 2, thr, None)]
     if itype == "MATCHED":
         out += [
             ("disjoint", "NORMAL", [1, 1, 0, 0, 0, 0, 0], [0, 0, 0, 0, 2, 2, 0], 1, 1, None, None),
